@@ -29,6 +29,8 @@ def config(r, forever=False):
     cyc = r.choice([T // 2, T, T])
     if forever:
         attl, sttl, refresh = 0xFFFFFF, 0xFFFFFF, r.choice([None, T])
+        if r.random() < 0.25:
+            cyc = 0          # non-cyclic offerer: offers only in its initial and repetition phases, then answers FindService
     else:
         attl = r.choice([2, 3])
         sttl = r.choice([2, 3, 5])
@@ -189,6 +191,23 @@ def directed_quick_restart(r):
     return (na, nb, evs, [], 0, latency, t1 + gap + 8 * T, rev, fuel)
 
 
+def directed_noncyclic(r):
+    """A NON-cyclic offerer (CYCLIC_OFFER_DELAY 0, infinite TTLs: after its repetition phase it only answers FindService
+    entries) and a watcher that is stopped / crashed and comes back long after that phase: the answer to its FindService is
+    then the only way it can learn of the service."""
+    sc = scenario(r, forever=True, calm=True)
+    na, nb, events, decisions, fault_end, latency, t_end, rev, fuel = sc
+    ca = list(na[1])
+    ca[6] = 0
+    na = (na[0], tuple(ca), na[2], na[3], na[4])
+    inst = phase_instants(ca, max(ca[0], min(ca[1], na[3][0])))
+    t1 = inst[-1] + r.choice([T // 2, T, 3 * T])
+    how = r.choice(["crash", "crash", "stop"])
+    t2 = t1 + r.choice([1, T // 8, T])
+    evs = list(events) + ([(t1, True, (1,)), (t2, True, (2,))] if how == "crash" else [(t1, True, (0, [1])), (t2, True, (0, [0]))])
+    return (na, nb, sorted(evs, key=lambda e: e[0]), [], 0, latency, t2 + 8 * T, rev, fuel)
+
+
 def describe(sc):
     na, nb, events, decisions, fault_end, latency, t_end, rev, fuel = sc
     def node(n):
@@ -266,7 +285,9 @@ def judge(ctx, scs):
                 ctx.known_hit("F16")
             if c == 20:
                 ctx.known_hit("F20")
-        codes = [c for c in codes if c not in (16, 20)]
+            if c == 21:
+                ctx.known_hit("F21")
+        codes = [c for c in codes if c not in (16, 20, 21)]
         if codes:
             def fails(cand, bad0=codes[0]):
                 a2, b2, _, _, _ = syssim.run_impl(cand)
@@ -305,7 +326,7 @@ def run(ctx):
     n = 150 if quick else 6000
     scs = [undescribe(c["scenario"]) for c in load_corpus("C04") if "scenario" in c]
     for k in range(n):
-        scs.append(directed_restart(r) if k % 4 == 3 else directed_lost_stop(r) if k % 10 == 6 else directed_quick_restart(r) if k % 10 == 2 else scenario(r, forever=(k % 5 == 4), calm=(k % 25 == 0)))
+        scs.append(directed_restart(r) if k % 4 == 3 else directed_lost_stop(r) if k % 10 == 6 else directed_quick_restart(r) if k % 10 == 2 else directed_noncyclic(r) if k % 10 == 8 else scenario(r, forever=(k % 5 == 4), calm=(k % 25 == 0)))
     judge(ctx, scs)
 
 
@@ -317,4 +338,4 @@ def replay(ctx, rp):
     print("watcher trace (implementation):", sexp.dumps(norm(tb))[:5000])
     v = ctx.model.call(3304, [syssim.scenario_sexp(sc), tr_sexp(ta), tr_sexp(tb)])
     print("checker verdict on the implementation traces:", v, " model==implementation:", norm(ta) == norm(mta) and norm(tb) == norm(mtb))
-    return 0 if v in ("()", "(90)", "(16)", "(20)") and norm(ta) == norm(mta) and norm(tb) == norm(mtb) else 1  # 16 = known finding F16
+    return 0 if v in ("()", "(90)", "(16)", "(20)", "(21)", "(21 21)") and norm(ta) == norm(mta) and norm(tb) == norm(mtb) else 1  # 16 = known finding F16
